@@ -135,6 +135,9 @@ var c40Ctxs = []string{"ok", "prevslot", "prevslot+", "blockno", "nohash", "badh
 
 func runC40(op string) string {
 	f := strings.Fields(op)
+	if len(f) > 0 && f[0] == "blk" {
+		return g8RunC40Block(f)
+	}
 	if len(f) != 12 || f[0] != "hdr" || (f[1] != "c" && f[1] != "t") {
 		return "bad-op"
 	}
@@ -366,6 +369,10 @@ func runC40(op string) string {
 func genC40(r *Rand, n int, tier string, emit func(string)) {
 	useeds := []string{hexs(r.Bytes(8)), hexs(r.Bytes(8))}
 	for i := 0; i < n; i++ {
+		if r.Chance(1, 4) {
+			g8GenC40Block(r, emit, useeds[r.Intn(2)])
+			continue
+		}
 		mode := Pick(r, "c", "c", "t")
 		spk := Pick(r, uint64(129600), 129600, 100, 1, 7, 3600)
 		maxEvo := Pick(r, uint64(62), 62, 62, 64, 1, 5, 63)
